@@ -11,7 +11,8 @@ CONSTANTS FailureThreshold,   \* default 5
           SuccessThreshold,   \* default 2
           HalfOpenRequests,   \* default 3
           OpenDuration,       \* default 60 s
-          Ticks, MaxLen
+          Ticks, MaxLen,
+          Races               \* sizes of concurrent Allow() bursts ({} = none)
 
 VARIABLES st, failures, successes, hoReq, sinceFail,
           res, act, consec, scn
@@ -63,8 +64,30 @@ Tick(d) == /\ act' = "Tick" /\ res' = "none"
            /\ sinceFail' = Min(sinceFail + d, SatF)
            /\ UNCHANGED <<st, failures, successes, hoReq, consec>>
 
+\* n overlapping Allow() calls (goroutines racing on permission): Allow is the same operation for every
+\* caller, so whatever order they take effect in, the outcome is that of n consecutive Asks. AskF is Ask
+\* as a function on the breaker's state (same case analysis as Ask above).
+AskF(s) == CASE s.st = "closed" -> [s |-> s, res |-> "admit"]
+             [] s.st = "open" /\ sinceFail <= OpenDuration -> [s |-> s, res |-> "refuse"]
+             [] s.st = "open" /\ sinceFail > OpenDuration ->
+                   [s |-> [st |-> "half", failures |-> 0, successes |-> 0, hoReq |-> 1],
+                    res |-> IF 1 <= HalfOpenRequests THEN "admit" ELSE "refuse"]
+             [] s.st = "half" ->
+                   [s |-> [s EXCEPT !.hoReq = Min(s.hoReq + 1, SatH)],
+                    res |-> IF s.hoReq + 1 <= HalfOpenRequests THEN "admit" ELSE "refuse"]
+RECURSIVE AskN(_, _)
+AskN(s, n) == IF n = 0 THEN [s |-> s, admits |-> 0]
+              ELSE LET one == AskF(s)  rest == AskN(one.s, n - 1)
+                   IN [s |-> rest.s, admits |-> rest.admits + (IF one.res = "admit" THEN 1 ELSE 0)]
+Cur == [st |-> st, failures |-> failures, successes |-> successes, hoReq |-> hoReq]
+RaceAdmits(n) == AskN(Cur, n).admits
+Race(n) == /\ act' = "Race" /\ res' = "none"
+           /\ LET r == AskN(Cur, n).s IN st' = r.st /\ failures' = r.failures /\ successes' = r.successes /\ hoReq' = r.hoReq
+           /\ UNCHANGED <<sinceFail, consec>>
+
 Log(tok) == scn' = Append(scn, tok)
 Next == \/ Ask /\ Log("Ask")
+        \/ \E n \in Races : Race(n) /\ Log(<<"Race", n>>)
         \/ Fail /\ Log("Fail")
         \/ Succ /\ Log("Succ")
         \/ \E d \in Ticks : Tick(d) /\ Log(<<"Tick", d>>)
@@ -81,6 +104,8 @@ BoundedProbes  == [][(act' = "Ask" /\ st' = "half" /\ res' = "admit") => hoReq' 
 ProbeCounted   == [][(act' = "Ask" /\ st = "half") => hoReq' = Min(hoReq + 1, SatH)]_vars
 SuccCloses     == [][(act' = "Succ" /\ st = "half" /\ successes + 1 >= SuccessThreshold) => st' = "closed"]_vars
 FailReopens    == [][(act' = "Fail" /\ st = "half") => st' = "open" /\ sinceFail' = 0]_vars
+\* concurrent callers: a burst of n overlapping Asks admits at most what is left of the half-open budget
+RaceBounded    == [][(act' = "Race" /\ st' = "half") => hoReq' <= SatH /\ (st = "half" => hoReq' >= hoReq)]_vars
 ClosedAdmits   == [][(act' = "Ask" /\ st = "closed") => res' = "admit"]_vars
 SuccClears     == [][(act' = "Succ" /\ st = "closed") => failures' = 0]_vars
 TypeOK == /\ st \in {"closed", "open", "half"} /\ failures \in 0..FailureThreshold
